@@ -30,7 +30,11 @@ def main():
         rec = {"name": ob["name"], "module": ob["module"], "func": ob["func"], "kwargs": ob.get("kwargs", {})}
         try:
             mod = importlib.import_module("mir2smt." + ob["module"])
+            P.CURRENT_OB = "%s.%s" % (ob["module"], ob["func"])
+            del P.ALL_EXECUTORS[:]
             r = getattr(mod, ob["func"])(crate, **ob.get("kwargs", {}))
+            rec["opaque_crate_callees"] = sorted(set().union(*[e.opaque_seen for e in P.ALL_EXECUTORS])) if P.ALL_EXECUTORS else []
+            rec["frame_assumptions_checked"] = any(e.opaque_expected is not None for e in P.ALL_EXECUTORS)
             rec.update({"status": r.status, "detail": r.detail, "queries": r.queries, "solver_s": round(r.solver_s, 3),
                         "paths": r.paths, "covers": r.covers, "functions": r.functions, "bounds": r.bounds,
                         "summaries": r.summaries, "havoc": r.havoc, "inlined": r.inlined,
@@ -38,13 +42,19 @@ def main():
                         "finding_key": getattr(r, "finding_key", None),
                         "replay": getattr(r, "replay", None)})
             files, exp = [], []
-            keep = r.smt2[-40:] if r.status == "holds" else r.smt2[-3:]
+            if r.status == "holds":
+                keep = r.smt2[-40:]
+            else:
+                # the refuted claim's query (expected sat) and the two decided before it
+                sat_ix = [i for i, q in enumerate(r.smt2) if q[2] == "sat"]
+                last = sat_ix[-1] if sat_ix else len(r.smt2) - 1
+                keep = r.smt2[max(0, last - 2):last + 1]
             for i, (label, txt, expected) in enumerate(keep):
                 f = os.path.join(spec["smt_dir"], "%s_%03d.smt2" % (ob["name"], i))
                 with open(f, "w") as fh:
                     fh.write(txt)
                 files.append(f)
-                exp.append(expected if r.status == "holds" or i < len(keep) - 1 else "sat")
+                exp.append(expected)
             rec["smt_files"], rec["smt_expected"] = files, exp
             rec["deciding_queries"] = len(r.smt2)
         except (Unsupported, MirParseError) as e:
